@@ -265,6 +265,50 @@ func (e *Engine) Run(t *tape.Tape, keep bool) *sim.Result {
 		res.Probes["streams_fully_enumerated"]++
 	}
 	res.Probes["single_stall_executions"] += enumerated
+	// 2b. repeated stalls at one position (2 and 3 consecutive empty reads), and
+	// for short streams every pair of stall positions (same kind).
+	for pos := 0; pos < len(w); pos++ {
+		if len(w) > limit && !(interesting(w, pos)) {
+			continue
+		}
+		for _, k := range kinds {
+			for _, rep := range []int{2, 3} {
+				st := mk()
+				st.StallAt = map[int]int{pos: k}
+				st.StallRepeat = rep
+				oc := e.check(mux, pkts, st, false)
+				res.Steps++
+				res.Faults[sim.StallNames[k]] += st.Fired[sim.StallNames[k]]
+				res.Probes["repeated_stall_executions"]++
+				if oc != nil {
+					prev := "start"
+					if pos > 0 {
+						prev = fmt.Sprintf("%02x", w[pos-1])
+					}
+					return fail(oc, fmt.Sprintf("%d consecutive %s before wire offset %d (after byte %s)", rep, sim.StallNames[k], pos, prev),
+						fmt.Sprintf("repeated_stall:after=%s:%s", prev, oc.class))
+				}
+			}
+		}
+	}
+	if len(w) <= 40 {
+		for p1 := 0; p1 < len(w); p1++ {
+			for p2 := p1 + 1; p2 < len(w); p2++ {
+				for _, k := range kinds {
+					st := mk()
+					st.StallAt = map[int]int{p1: k, p2: k}
+					oc := e.check(mux, pkts, st, false)
+					res.Steps++
+					res.Faults[sim.StallNames[k]] += st.Fired[sim.StallNames[k]]
+					res.Probes["stall_pair_executions"]++
+					if oc != nil {
+						return fail(oc, fmt.Sprintf("%s before wire offsets %d and %d", sim.StallNames[k], p1, p2), "stall_pair:"+oc.class)
+					}
+				}
+			}
+		}
+		res.Probes["streams_with_all_stall_pairs_enumerated"]++
+	}
 	// 3. tape-drawn multi-fault schedules: stalls of drawn kinds, bounded chunks.
 	reps := 1 + t.Draw(3)
 	for i := 0; i < reps; i++ {
